@@ -7,7 +7,10 @@ STREAMS = [SchedStream("C19", name="sched-restart", feat={"restart": True, "hold
                        n_quick=24, n_thorough=500, extra_oracles=["C06"]),
            # restarts only (no other commands): here the continued run is compared with the uninterrupted one
            SchedStream("C19", name="sched-restart-only", feat={"restart": True, "abs": True},
-                       n_quick=20, n_thorough=500)]
+                       n_quick=20, n_thorough=500),
+           # broadcasts set / cancelled (several per database flush) before and between restarts
+           SchedStream("C19", name="sched-restart-bcast", feat={"restart": True, "bcast": True, "abs": True},
+                       n_quick=24, n_thorough=500)]
 META = {
     "level_text": ("Coq theorems: what a restart must give back for each pooled task ([restored]: same flows, held flag, satisfied "
                    "prerequisites, outputs; preparing -> waiting under the same submit number); an accepted restart "
